@@ -468,6 +468,9 @@ func replayMain(t *testing.T, prop *Property, path string, out *WorkerOut) {
 	}
 	res := RunOne(t, rp, rf.Program, rch, true)
 	curRun = nil
+	if f := os.Getenv("VERIF_REPLAY_DUMP"); f != "" {
+		os.WriteFile(f, []byte(strings.Join(res.LogDump, "\n")+"\n"+strings.Join(violationStrings(res.Violations), "\n")+"\ninfra="+res.Infra+"\n"), 0o644) // the history of the replayed run, for a human
+	}
 	if rp != prop {
 		res.Violations = nil
 	}
